@@ -512,3 +512,63 @@ def c15_r9(ctx):
     n = reconstruction_check(ctx, prog, classes + [span], RECON_OK)
     if n < 25:
         raise AnalysisError("only %d query re-construction sites found" % n)
+
+
+ARGNAME_OK = {
+    # (caller, callee, parameter, argument): why the crossed names are intended
+    ("matching.binary.UnionMatcher.replace", "matching.binary.AndMaybeMatcher.__init__", "a", "b"):
+        "deliberate: when `a` cannot reach the minimum quality on its own, `b` becomes the required clause and `a` the optional one",
+    ("matching.binary.UnionMatcher.replace", "matching.binary.AndMaybeMatcher.__init__", "b", "a"): "same call",
+    ("qparser.dateparse.Sequence.parse", "util.times.fill_in", "basedate", "at"):
+        "`at` is the parser's name for the reference date, which is what fill_in calls basedate",
+    ("qparser.dateparse.Bag.parse", "util.times.fill_in", "basedate", "at"): "same",
+}
+
+
+@rule("C15", "R10", "K4", "an argument named after a parameter of the callee is bound to that parameter",
+      min_instances=1, also=("C11", "C16", "C09"),
+      clause="For every call whose callee is resolved exactly (constructors included, and self.__class__(...) against the own "
+             "constructor): if an argument is a plain name N or self.N, and the callee has a parameter called N, then the argument is "
+             "bound to N and not to another parameter (a dropped or inserted positional argument shifts the rest: "
+             "Sequence(subs, self.slop, self.boost) puts the boost into `ordered`).  The reviewed crossings are listed.")
+def c15_r10(ctx):
+    prog = ctx.prog
+    C = calls_of(prog)
+    n = 0
+    for f in prog.functions.values():
+        for c in norm.calls_in(f.node):
+            target = None
+            if norm.canon(c.func) in ("self.__class__", "type(self)") and f.cls is not None:
+                target = prog.lookup(f.cls, "__init__")
+            else:
+                r = C.resolve(f, c)
+                if r.kind == "exact" and len(r.targets) == 1:
+                    target = r.targets[0]
+            if target is None:
+                continue
+            is_cm = "classmethod" in target.decorators
+            unbound = isinstance(c.func, ast.Attribute) and c.args and isinstance(c.args[0], ast.Name) and c.args[0].id == "self" \
+                and not is_cm and norm.canon(c.func.value) != "self" and not isinstance(c.func.value, ast.Call) and target.cls is not None
+            m, probs = bind_args(c, target, skip_self=not unbound)
+            if not m:
+                continue
+            n += 1
+            a = target.node.args
+            allp = set(x.arg for x in a.args) | set(x.arg for x in a.kwonlyargs)
+            for p, e in m.items():
+                N = None
+                if isinstance(e, ast.Name):
+                    N = e.id
+                elif isinstance(e, ast.Attribute) and isinstance(e.value, ast.Name) and e.value.id == "self":
+                    N = e.attr
+                if N is None or N in ("self", "cls") or N == p or N.lstrip("_") == p.lstrip("_") or N not in allp:
+                    continue
+                if (f.short, target.short, p, N) in ARGNAME_OK:
+                    continue
+                ctx.saw(f)
+                ctx.ob(f, False, "`%s` is passed to %s as `%s`, although %s has a parameter `%s`" % (norm.canon(e), target.short, p, target.short, N),
+                       detail="a positional argument was dropped, inserted or swapped: every later argument lands one parameter off",
+                       loc=ctx.nodeloc(f, c))
+    ctx.ob("resolved calls", n >= 900, "%d exactly resolved calls had their arguments matched against the callee's parameter names" % n)
+    if n < 900:
+        raise AnalysisError("only %d calls bound" % n)
